@@ -13,6 +13,8 @@ import time
 import traceback
 
 ROOT = os.path.dirname(os.path.dirname(os.path.abspath(__file__)))
+# development aid (tools/seedrun.py): evidence/ and replay/ of a run against a scratch tree go elsewhere
+OUT = os.environ.get('PYVC_OUT_DIR') or ROOT
 sys.setrecursionlimit(10000)
 
 
@@ -57,6 +59,12 @@ FORK_SEM = None      # global slot semaphore for process-forking path exploratio
 def _verify_worker(job):
     pid, func, extra_requires = job
     try:
+        import resource
+        lim = int(float(os.environ.get('PYVC_MEM_GB', '4')) * (1 << 30))
+        resource.setrlimit(resource.RLIMIT_AS, (lim, lim))
+    except Exception:
+        pass
+    try:
         from pyvc.engine import Engine
         from pyvc import contracts as C, smt
         from pyvc.forking import ForkCtl
@@ -89,6 +97,28 @@ def _verify_worker(job):
         return dict(func=func, ok=False, error=traceback.format_exc())
 
 
+class NativeTimeout(Exception):
+    pass
+
+
+def _guarded(fn, seconds, *a):
+    """run a native stand-in / replay under a wall-clock limit (the code under test may not terminate)"""
+    import signal
+
+    def onalarm(sig, frm):
+        raise NativeTimeout('native run exceeded %ds' % seconds)
+    old = signal.signal(signal.SIGALRM, onalarm)
+    signal.setitimer(signal.ITIMER_REAL, seconds)
+    try:
+        return fn(*a)
+    finally:
+        signal.setitimer(signal.ITIMER_REAL, 0)
+        signal.signal(signal.SIGALRM, old)
+
+
+NATIVE_S = float(os.environ.get('PYVC_NATIVE_S', '300'))
+
+
 def _claimed(prop, oid):
     return any(fnmatch.fnmatchcase(oid, p) for p in prop.claims)
 
@@ -111,6 +141,12 @@ def load_ledger():
 
 def run_property(pid, tier='quick', update_ledger=False, verbose=False):
     t_start = time.time()
+    try:   # native stand-ins run the real code in this process: a runaway must not take the machine down
+        import resource
+        lim = int(float(os.environ.get('PYVC_MAIN_MEM_GB', '8')) * (1 << 30))
+        resource.setrlimit(resource.RLIMIT_AS, (lim, lim))
+    except Exception:
+        pass
     seed = int(os.environ.get('VERIF_SEED', '0') or 0)
     prop = load_prop(pid)
     jobs = [(pid, c.key, None) for c in prop.contracts]
@@ -161,7 +197,7 @@ def run_property(pid, tier='quick', update_ledger=False, verbose=False):
     violations = 0
     undecided = []
     refuted_known = []
-    replay_dir = os.path.join(ROOT, 'replay')
+    replay_dir = os.path.join(OUT, 'replay')
     os.makedirs(replay_dir, exist_ok=True)
 
     # known findings first: witness must still fail; restricted obligation must discharge
@@ -178,7 +214,7 @@ def run_property(pid, tier='quick', update_ledger=False, verbose=False):
             still = None
             if native is not None:
                 try:
-                    out = native(k['witness'])
+                    out = _guarded(native, NATIVE_S, k['witness'])
                     still = not out['holds']
                 except Exception:
                     crashed.append(dict(func=oid, error='known-finding witness replay crashed:\n' + traceback.format_exc()))
@@ -226,13 +262,13 @@ def run_property(pid, tier='quick', update_ledger=False, verbose=False):
             suffix = ''
             if native is not None:
                 try:
-                    out = native(ob['model'] or {})
+                    out = _guarded(native, NATIVE_S, ob['model'] or {})
                     rec['replay'] = out
                     if out.get('holds'):
                         # the counter-model does not fail natively
                         found = None
                         if out.get('search'):
-                            found = out['search']()
+                            found = _guarded(out['search'], NATIVE_S)
                         if found:
                             rec['replay'] = found
                         else:
@@ -255,7 +291,7 @@ def run_property(pid, tier='quick', update_ledger=False, verbose=False):
     bounded_out = []
     for b in prop.bounded:
         try:
-            out = b(tier)
+            out = _guarded(b, NATIVE_S * (4 if tier == 'thorough' else 1), tier)
             bounded_out.append(out)
             if out.get('violation'):
                 violations += 1
@@ -303,8 +339,8 @@ def run_property(pid, tier='quick', update_ledger=False, verbose=False):
         wall_s=round(wall, 2),
         violations=violations,
     )
-    os.makedirs(os.path.join(ROOT, 'evidence'), exist_ok=True)
-    with open(os.path.join(ROOT, 'evidence', pid + '.json'), 'w') as fh:
+    os.makedirs(os.path.join(OUT, 'evidence'), exist_ok=True)
+    with open(os.path.join(OUT, 'evidence', pid + '.json'), 'w') as fh:
         json.dump(evidence, fh, indent=1, default=str)
 
     for ln in lines:
